@@ -192,6 +192,13 @@ Theorem C05_light_load_is_read : forall numtab e v,
 Proof. exact load_light_is_read. Qed.
 Print Assumptions C05_light_load_is_read.
 
+(* asset: titles, contributor fields, unit and dates are exposed as the text of the file (model = reading:
+   find the element, take its text); the one normalisation is the up axis, which is the axis the file names
+   and Y_UP when it names none (or something else) *)
+Theorem C05_asset_up_axis : forall o, up_axis_of o = spec_up_axis (text_of o).
+Proof. exact up_axis_spec. Qed.
+Print Assumptions C05_asset_up_axis.
+
 (* flat class loaders.  Cameras: x / y / znear / zfar as given, the aspect ratio dropped exactly when
    all three of x, y and aspect ratio are given, rejected (DaeMalformed) exactly when neither x nor y
    is given.  References (material -> effect, default scene -> visual scene, instance_* -> library
